@@ -196,7 +196,7 @@ func (st *State) branch(cond *smt.Term, label string) bool {
 	if !st.w.Opt.NoFast {
 		if val, ok := st.intervalDecide(cond, 0); ok {
 			st.w.Stats.IntervalDecided++
-			if st.w.Opt.CrossCheck && st.live() {
+			if st.w.Opt.CrossCheck && st.live() && st.sampleCross() {
 				st.w.Stats.CrossChecked++
 				want := cond
 				if val {
@@ -293,7 +293,7 @@ func (st *State) branch(cond *smt.Term, label string) bool {
 				ff = st.feasible(ncond)
 			}
 		}
-		if st.w.Opt.CrossCheck {
+		if st.w.Opt.CrossCheck && st.sampleCross() {
 			st.w.Stats.CrossChecked++
 			zt, zf := st.w.Solver.Check(cond), st.w.Solver.Check(ncond)
 			if (zt == smt.Sat) != ft && zt != smt.Unknown || (zf == smt.Sat) != ff && zf != smt.Unknown {
@@ -1011,4 +1011,12 @@ func (st *State) findSplittable(t *smt.Term, seen map[uint32]bool, depth int) (*
 		}
 	}
 	return nil, nil
+}
+
+// sampleCross: in cross-check mode every 32nd fast-path verdict (counted per
+// worker) is re-decided by the solver; re-deciding all of them multiplies the
+// run time by 20 and more.
+func (st *State) sampleCross() bool {
+	st.w.crossN++
+	return st.w.crossN%32 == 0
 }
